@@ -240,17 +240,24 @@ _ALLSC = ('forall(lambda a: forall(lambda j: as_type(%s.assertion, "List(Inst(\'
           '.subject_confirmation_data.in_response_to == %s, 0, '
           'len(as_type(%s.assertion, "List(Inst(\'saml2_tophat.saml:Assertion\'))")[a].subject.subject_confirmation)), 0, '
           'len(as_type(%s.assertion, "List(Inst(\'saml2_tophat.saml:Assertion\'))")))')
-contract(AR_ + '.check_subject_confirmation_in_response_to', types={'irp': 'Opt(Str)'}, returns='Bool',
-         ensures=[('C05-all-confirmations', 'implies(result is True, %s)' % (_ALLSC % ('self.response', 'self.response', 'irp', 'self.response', 'self.response')))],
-         raises={'AttributeError': 'self.response is None or not isinstance(self.response, "saml2_tophat.samlp:Response") or '
-                                   'exists(lambda a: ASS(self.response)[a].subject is None, 0, len(ASS(self.response)))'},
+# the assertions the check runs over: the given list, or (default) the response's plain assertions
+_AL = 'as_type(ite(assertions is None, as_type(self.response, "Inst(\'saml2_tophat.samlp:Response\')").assertion, assertions), "List(Inst(\'saml2_tophat.saml:Assertion\'))")'
+_ALLSC_L = ('forall(lambda a: forall(lambda j: AL[a].subject.subject_confirmation[j].subject_confirmation_data is None or '
+            'AL[a].subject.subject_confirmation[j].subject_confirmation_data.in_response_to == irp, 0, '
+            'len(AL[a].subject.subject_confirmation)), 0, len(AL))')
+contract(AR_ + '.check_subject_confirmation_in_response_to',
+         types={'irp': 'Opt(Str)', 'assertions': "Opt(List(Inst('saml2_tophat.saml:Assertion')))"}, returns='Bool',
+         lets={'AL': _AL},
+         ensures=[('C05-all-confirmations', 'implies(result is True, %s)' % _ALLSC_L)],
+         raises={'AttributeError': '(assertions is None and (self.response is None or not isinstance(self.response, "saml2_tophat.samlp:Response"))) or '
+                                   'exists(lambda a: AL[a].subject is None, 0, len(AL))'},
          modifies=[],
          loops={0: {'inv': ['forall(lambda a: forall(lambda j: seq0[a].subject.subject_confirmation[j].subject_confirmation_data is None or '
                             'seq0[a].subject.subject_confirmation[j].subject_confirmation_data'
                             '.in_response_to == irp, 0, len(seq0[a].subject.subject_confirmation)), 0, i0)']},
                 1: {'inv': ['forall(lambda j: seq1[j].subject_confirmation_data is None or '
                             'seq1[j].subject_confirmation_data.in_response_to == irp, 0, i1)']}},
-         clauses_from={'C05': ['C05-all-confirmations']})
+         clauses_from={'C05': ['C05-all-confirmations'], 'C17': ['C05-all-confirmations']})
 
 contract(AR_ + '.loads', types={'xmldata': 'Union(Str, Bytes)', 'decode': 'Any', 'origxml': 'Any'},
          returns="Inst('%s')" % AR_,
